@@ -250,6 +250,10 @@ public:
     other.bufferStart = tmpBufferStart;
     other.bufferEnd = tmpBufferEnd;
     other._capacity = tmpCapacity;
+    if(bufferStart == (byte*)&other._capacity)
+      bufferStart = bufferEnd = (byte*)&_capacity;
+    if(other.bufferStart == (byte*)&_capacity)
+      other.bufferStart = other.bufferEnd = (byte*)&other._capacity;
   }
 
   void free()
